@@ -103,6 +103,24 @@ def main():
                     record("calibration", name, prop, c, ok, rc, first, tier)
                 print(line, flush=True)
                 revert()
+        elif mode == "refactor":
+            # behaviour-preserving refactorings: every check must stay silent (exit 0)
+            for d in sorted(glob.glob(os.path.join(os.path.dirname(SEEDED), "refactors", "*"))):
+                rid = os.path.basename(d)
+                if sel and not any(s in rid for s in sel): continue
+                rc, out = sh(f"git apply {d}/patch.diff", REPO)
+                if rc != 0:
+                    print(f"{rid:30} PATCH-DOES-NOT-APPLY {out[:100]}"); revert(); continue
+                ok, tests = repo_tests()
+                line = f"{rid:30} tests={'pass' if ok else 'FAIL'}"
+                for c in (checks or [f"C{i:02d}" for i in range(1, 20)]):
+                    rc, first, sigs, dt = run_check(c, tier)
+                    if rc != 0:
+                        line += f" | {c}: rc={rc} {first[:140]} {sigs[:2]}"
+                    results.append((rid, c, ok, 1 if rc == 0 else 0))   # "detected" column reused: 1 = silent as expected
+                    record("refactor", rid, "-", c, ok, rc, first, tier)
+                print(line + " | (all other checks silent)", flush=True)
+                revert()
         else:
             for d in sorted(glob.glob(os.path.join(SEEDED, "*"))):
                 sid = os.path.basename(d)
